@@ -64,6 +64,18 @@ CLAIMS = [None,
 NOW = 1_700_000_000
 
 
+def repaired_flags():
+    """the repaired_* flags of Model/Interop.v (one per recorded finding that has a repair): the generator follows
+    them when it sorts cells into limit-free ones and limit cells; verdicts never depend on them"""
+    import re
+    txt = open(os.path.join(E.COQ, "Model", "Interop.v")).read()
+    return {m.group(1): m.group(2) == "true"
+            for m in re.finditer(r"^Definition repaired_(\w+) : bool := (true|false)\.", txt, re.M)}
+
+
+REPAIRED = repaired_flags()
+
+
 # ------------------------------------------------------------------ dimension tables (read from the library)
 def tables():
     from idpyoidc.client.oidc import authorization as c_az, access_token as c_at, userinfo as c_ui
@@ -106,27 +118,31 @@ def tables():
 def py_limits(c, offline, T, claims=False):
     rts = c["rt"].split(" ")
     out = []
-    if c["transport"] == "par" and claims:
+    if not REPAIRED.get("par_request_class") and c["transport"] == "par" and claims:
         out.append("par_claims")
     if (c["rm"] == "fragment" and c["rt"] == "code") or (c["rm"] == "query" and c["rt"] != "code"):
         out.append("mode")
     if not c.get("op_explicit", True) and c["rt"] != "code":
         out.append("shadow")
+    R = REPAIRED
     redeems = "code" in rts and "token" not in rts        # the RP goes to the token endpoint
-    if T["sig_fam"].get(c["idt_sig"]) == "HS" and ("id_token" in rts or redeems):
+    if not R.get("hs_sign") and T["sig_fam"].get(c["idt_sig"]) == "HS" and ("id_token" in rts or redeems):
         out.append("hs_idt")
     if c.get("idt_enc") and ("id_token" in rts or redeems):
-        out.append("idt_enc")
+        if not R.get("idt_enc"):
+            out.append("idt_enc")
+        elif T["enc_fam"].get(c["idt_enc"][0]) == "KW" and c["secret_len"] not in (16, 24, 32):
+            out.append("kw_idt")
     has_at = c["rt"] != "id_token"
-    if has_at and c["ui_sig"] and T["sig_fam"].get(c["ui_sig"]) == "HS":
+    if not R.get("hs_sign") and has_at and c["ui_sig"] and T["sig_fam"].get(c["ui_sig"]) == "HS":
         out.append("hs_ui")
     if has_at and c["ui_enc"] and T["enc_fam"].get(c["ui_enc"][0]) == "KW" and c["secret_len"] not in (16, 24, 32):
         out.append("kw")
-    if c["transport"] in ("request_uri", "par") and "id_token" in rts:
+    if not R.get("byref") and c["transport"] in ("request_uri", "par") and "id_token" in rts:
         out.append("byref_nonce")
-    if c["transport"] in ("request_uri", "par") and offline:
+    if not R.get("byref") and c["transport"] in ("request_uri", "par") and offline:
         out.append("byref_consent")
-    if c["transport"] == "par" and c["auth"] in ("client_secret_jwt", "private_key_jwt"):
+    if not R.get("par_issuer_audience") and c["transport"] == "par" and c["auth"] in ("client_secret_jwt", "private_key_jwt"):
         out.append("par_jwt")
     return out
 
@@ -384,6 +400,9 @@ def finding_key(rec, T):
         ("hs-sign:userinfo", hs(c["ui_sig"]), ("userinfo",), ("NoSuitableSigningKeys",)),
         ("kw-secret-length", bool(c["ui_enc"]) and T["enc_fam"].get(c["ui_enc"][0]) == "KW" and c["secret_len"] not in (16, 24, 32),
          ("userinfo",), ("wrapping key must be a valid AES key length",)),
+        ("kw-secret-length", bool(c["idt_enc"]) and T["enc_fam"].get(c["idt_enc"][0]) == "KW" and c["secret_len"] not in (16, 24, 32)
+         and expects(c["rt"])[1], ("authz_process", "token"),
+         ("wrapping key must be a valid AES key length", "KeyError: 'response_mode'", "server_error")),
         ("byref-nonce-missing", c["transport"] in BYREF and "id_token" in rts, ("authz_parse",), ("Nonce missing",)),
         ("byref-consent-missing", c["transport"] in BYREF and "offline_access" in rec["scope"], ("authz_parse",), ("consent in prompt",)),
         ("par-jwt-audience", c["transport"] == "par" and c["auth"] in JWT_METHODS, ("par",), ("Not for me",)),
@@ -624,7 +643,7 @@ def pairwise_rows(rng, T, want_limit_free=True, max_rows=400):
     def limit_free(r):
         c = base_cell(rt=r["rt"], rm=r["rm"], auth=r["auth"], transport=r["transport"], secret_len=r["secret_len"],
                       idt_sig={"HS": "HS256"}.get(r["idt_fam"], "RS256"),
-                      idt_enc=None if r["idt_enc_fam"] is None else ("RSA-OAEP", "A128GCM"),
+                      idt_enc=None if r["idt_enc_fam"] is None else ({"KW": "A128KW"}.get(r["idt_enc_fam"], "RSA-OAEP"), "A128GCM"),
                       ui_sig=None if r["ui_fam"] is None else {"HS": "HS256"}.get(r["ui_fam"], "RS256"),
                       ui_enc=None if r["ui_enc_fam"] is None else ({"KW": "A128KW"}.get(r["ui_enc_fam"], "RSA-OAEP"), "A128GCM"))
         return not py_limits(c, r["offline"], T, r["claims"])
